@@ -3,7 +3,7 @@ use std::path::PathBuf;
 
 fn main() {
     let args: Vec<String> = std::env::args().skip(1).collect();
-    if args.len() < 2 && args.first().map(|a| a != "gen-fuzz-seeds" && a != "dump-fuzz" && a != "frag-init" && a != "case-digest").unwrap_or(true) {
+    if args.len() < 2 && args.first().map(|a| a != "gen-fuzz-seeds" && a != "dump-fuzz" && a != "frag-init" && a != "case-digest" && a != "dump-case").unwrap_or(true) {
         eprintln!("usage: verif <Cxx> <quick|thorough> | verif <Cxx> --replay <file>");
         std::process::exit(2);
     }
@@ -11,16 +11,59 @@ fn main() {
         harness::fuzz::write_seeds(&PathBuf::from(std::env::var("VERIF_ROOT").unwrap_or_else(|_| "/verif".into())));
         return;
     }
+    if args[0] == "dump-case" {
+        // verif dump-case @<replay or case json>: the lowered calls of a ValidCase in hex (debugging aid)
+        let arg = args.get(1).cloned().unwrap_or_default();
+        let text = if let Some(path) = arg.strip_prefix('@') { std::fs::read_to_string(path).unwrap_or_default() } else { arg };
+        let v: serde_json::Value = serde_json::from_str(&text).unwrap_or_default();
+        let v = v.get("case").cloned().unwrap_or(v);
+        if let Ok(c) = serde_json::from_value::<harness::scenario::ValidCase>(v) {
+            let l = harness::scenario::lower(&c);
+            if let Ok(dir) = std::env::var("VERIF_DUMP_DIR") {
+                let r = harness::exec::run_history(&l.cfg, &l.ops);
+                let _ = std::fs::write(format!("{}/out.mp4", dir), &r.out);
+                for (k, e) in l.vexp.iter().enumerate() {
+                    let _ = std::fs::write(format!("{}/vexp{}.bin", dir, k), &e.bytes);
+                }
+            }
+            for (i, op) in l.ops.iter().enumerate() {
+                let s = format!("{:?}", op);
+                println!("{} {}", i, &s[..s.len().min(100)]);
+                let data: Option<&Vec<u8>> = match op {
+                    harness::exec::COp::Video { data, .. } | harness::exec::COp::VideoDts { data, .. } | harness::exec::COp::Audio { data, .. } => Some(data),
+                    _ => None,
+                };
+                if let Some(d) = data {
+                    let h: String = d.iter().take(80).map(|x| format!("{:02x}", x)).collect();
+                    let t: String = d.iter().rev().take(24).rev().map(|x| format!("{:02x}", x)).collect();
+                    println!("   len {} head {} tail {}", d.len(), h, t);
+                    if let Ok(dir) = std::env::var("VERIF_DUMP_DIR") {
+                        let _ = std::fs::write(format!("{}/op{}.bin", dir, i), d);
+                    }
+                }
+            }
+        }
+        return;
+    }
     if args[0] == "case-digest" {
         // verif case-digest <ValidCase json>: every return value (with its error text) and the output bytes of the history, as
         // computed in this process and its environment
         harness::exec::install_panic_hook();
-        match serde_json::from_str::<harness::scenario::ValidCase>(args.get(1).map(|s| s.as_str()).unwrap_or("")) {
+        // "@<file>": the case is read from the file; "verif case-digest @<file> <out>": the digest is written to <out>
+        // instead of standard output (for runs whose standard streams are a terminal)
+        let arg = args.get(1).cloned().unwrap_or_default();
+        let text = if let Some(path) = arg.strip_prefix('@') { std::fs::read_to_string(path).unwrap_or_default() } else { arg };
+        match serde_json::from_str::<harness::scenario::ValidCase>(&text) {
             Ok(c) => {
                 let l = harness::scenario::lower(&c);
                 let r = harness::exec::run_history(&l.cfg, &l.ops);
-                println!("{:?}", r.results);
-                println!("{}", r.out.iter().map(|x| format!("{:02x}", x)).collect::<String>());
+                let digest = format!("{:?}\n{}\n", r.results, r.out.iter().map(|x| format!("{:02x}", x)).collect::<String>());
+                match args.get(2) {
+                    Some(out) => {
+                        let _ = std::fs::write(out, digest);
+                    }
+                    None => print!("{}", digest),
+                }
             }
             Err(e) => {
                 eprintln!("bad case: {}", e);
